@@ -367,6 +367,15 @@ class NpProxy(types.ModuleType):
         if is_sym(x):
             cx = _all_const(x)
             if cx is None:
+                if not a and not k:
+                    if isinstance(x, SNum):
+                        return _angle_of_phase(x)
+                    arr = _np.asarray(x, dtype=object)
+                    if arr.ndim == 1:
+                        res = _np.empty(arr.shape, dtype=object)
+                        for i, e in enumerate(arr):
+                            res[i] = _angle_of_phase(_coerce(e))
+                        return wrap(res)
                 raise Escape('symx: np.angle of a symbolic value (inverse trigonometric)')
             return _np.angle(cx, *a, **k)
         return _np.angle(x, *a, **k)
@@ -495,6 +504,24 @@ class NpProxy(types.ModuleType):
         if is_sym(a):
             raise Escape('symx: argmax of symbolic data')
         return _np.argmax(a, *r, **k)
+
+    def sort(self, a, *r, **k):
+        """1-d symbolic data: insertion sort with real comparisons (each one is a fork decided by the solver)"""
+        if is_sym(a):
+            xs = list(_np.asarray(a, dtype=object).ravel())
+            if r or k or _np.asarray(a, dtype=object).ndim != 1:
+                raise Escape('symx: np.sort of symbolic data with options / ndim != 1')
+            out = []
+            for x in xs:
+                i = len(out)
+                while i > 0 and bool(x < out[i - 1]):
+                    i -= 1
+                out.insert(i, x)
+            res = _np.empty(len(out), dtype=object)
+            for i, x in enumerate(out):
+                res[i] = x
+            return wrap(res)
+        return _np.sort(a, *r, **k)
 
     def max(self, a, *r, **k):
         if is_sym(a):
@@ -663,6 +690,56 @@ def _any(r):
     return bool(r)
 
 
+def _angle_of_phase(x):
+    """np.angle of  c * exp(i (pi L_pi + L_rad))  with c a non-zero constant and L_* real linear forms in the
+    symbolic variables: the principal value  A - 2 pi floor((A + pi) / (2 pi)),  A = arg(c) + pi L_pi + L_rad
+    (exact up to the convention at the branch cut, where numpy answers +pi and this model -pi: both are
+    arguments of the same eigenvalue).  Anything else escapes."""
+    import cmath as _cm
+    import math as _m
+
+    from . import ctx as _C
+
+    if x.is_const():
+        return _np.angle(x.const_value())
+    p = x.pruned()
+    if len(p.t) != 1:
+        raise Escape('symx: np.angle of a symbolic value that is not a single phase (inverse trigonometric)')
+    (mono, ang), c = next(iter(p.t.items()))
+    if mono or not ang or c == 0:
+        raise Escape('symx: np.angle of a symbolic value that is not a single phase (inverse trigonometric)')
+    A = SNum.const(_cm.phase(c))
+    for (m, unit), q in ang:
+        A = A + SNum({(m, ()): complex(float(q) * (_m.pi if unit == 'pi' else 1.0))})
+    cx = _C._CUR[0]
+    if cx is None:
+        raise Escape('symx: np.angle of a symbolic phase outside an exploration context')
+    kf = cx.atom_floor((A + _m.pi) * (1.0 / (2 * _m.pi)))
+    return A - cx.sint_to_snum(kf) * (2 * _m.pi)
+
+
+def _diag_eigvals(a):
+    """eigenvalues of a symbolic matrix that is syntactically diagonal: its diagonal (any other shape escapes)"""
+    A = _np.asarray(a, dtype=object)
+    if A.ndim != 2 or A.shape[0] != A.shape[1]:
+        return None
+    n = A.shape[0]
+    for i in range(n):
+        for j in range(n):
+            if i != j:
+                e = A[i, j]
+                if isinstance(e, SYM):
+                    e = _coerce(e).pruned()
+                    if not (e.is_const() and e.const_value() == 0):
+                        return None
+                elif e != 0:
+                    return None
+    res = _np.empty(n, dtype=object)
+    for i in range(n):
+        res[i] = A[i, i]
+    return wrap(res)
+
+
 class LinalgProxy(types.ModuleType):
     def __init__(self):
         super().__init__('numpy.linalg')
@@ -678,6 +755,10 @@ class LinalgProxy(types.ModuleType):
                 for x in a:
                     if is_sym(x):
                         c = _all_const(x)
+                        if c is None and name == 'eigvals' and len(a) == 1 and not k:
+                            d = _diag_eigvals(x)
+                            if d is not None:
+                                return d
                         if c is None:
                             raise Escape(f'symx: numpy.linalg.{name} (LAPACK) on symbolic data')
                         conv.append(c)
